@@ -9,6 +9,7 @@ import (
 	"time"
 
 	proto "github.com/kubewharf/kubebrain-client/api/v2rpc"
+	"k8s.io/client-go/tools/leaderelection/resourcelock"
 
 	"github.com/kubewharf/kubebrain/pkg/backend"
 	"github.com/kubewharf/kubebrain/pkg/backend/coder"
@@ -354,6 +355,62 @@ func (s *backendSuite) do(t []string) string {
 			w.cancel()
 		}
 		return "cancel " + pos[1]
+	case "sync":
+		// wait (bounded) until the committed revision has been stable for 20 ms — for runs whose
+		// revisions are wall-clock values the model cannot predict
+		last := s.b.GetCurrentRevision()
+		stable := time.Now()
+		deadline := time.Now().Add(s.wait)
+		for time.Now().Before(deadline) && time.Since(stable) < 20*time.Millisecond {
+			time.Sleep(500 * time.Microsecond)
+			if cur := s.b.GetCurrentRevision(); cur != last {
+				last, stable = cur, time.Now()
+			}
+		}
+		return "sync ok"
+	case "reupdate":
+		// guarded update conditioned on the revision a fresh Get reports (for wall-clock revisions)
+		g, err := s.b.Get(ctx, &proto.GetRequest{Key: unhx(pos[1])})
+		if err != nil || g.Kv == nil {
+			return "reupdate nokey"
+		}
+		resp, err := s.b.Update(ctx, &proto.UpdateRequest{Kv: &proto.KeyValue{Key: unhx(pos[1]), Value: unhx(pos[2]), Revision: g.Kv.Revision}})
+		if err != nil {
+			return "reupdate err " + classify(err)
+		}
+		if resp.Succeeded {
+			return fmt.Sprintf("reupdate ok %d prev=%d", resp.Header.Revision, g.Kv.Revision)
+		}
+		return fmt.Sprintf("reupdate cf %d prev=%d", resp.Header.Revision, g.Kv.Revision)
+	case "restart":
+		// a new leader over the same store, initialised exactly as leader.go does: acquire the lock
+		// (Get, then Create or Update), parse the engine timestamp from Describe(), SetCurrentRevision
+		b2 := s.newBackend("id-" + fmt.Sprint(len(s.watchers)+2) + "-" + fmt.Sprint(time.Now().UnixNano()))
+		lock := b2.GetResourceLock()
+		rec, err := lock.Get()
+		if err != nil {
+			err = lock.Create(resourcelock.LeaderElectionRecord{HolderIdentity: lock.Identity()})
+		} else {
+			nr := *rec
+			nr.HolderIdentity = lock.Identity()
+			nr.LeaderTransitions++
+			err = lock.Update(nr)
+		}
+		if err != nil {
+			return "restart err " + classify(err)
+		}
+		infos := strings.Split(lock.Describe(), ",")
+		if len(infos) != 2 {
+			return "restart err describe"
+		}
+		ts := atou(infos[1])
+		b2.SetCurrentRevision(ts)
+		s.b = b2
+		maxStored := s.maxStoredRevision()
+		if ts >= maxStored {
+			return "restart above"
+		}
+		return fmt.Sprintf("restart lag ts=%d maxstored=%d", ts, maxStored)
 	case "retry":
 		// release one parked retry step (gate retry.step must be armed) with the given fault for its commit
 		s.setFaults(opts)
@@ -487,6 +544,26 @@ func (s *backendSuite) do(t []string) string {
 		return "release " + pos[1] + " ok"
 	}
 	return pos[0] + " bad-op"
+}
+
+// maxStoredRevision scans the whole engine for the largest revision in an internal key or index value.
+func (s *backendSuite) maxStoredRevision() uint64 {
+	it, err := s.inner.Iter(context.Background(), []byte{0}, []byte{0xff, 0xff, 0xff, 0xff, 0xff}, 0, 0)
+	if err != nil {
+		return 0
+	}
+	defer it.Close()
+	var m uint64
+	for it.Next(context.Background()) == nil {
+		k := it.Key()
+		if len(k) < 13 {
+			continue
+		}
+		if _, rev, err := s.coder.Decode(k); err == nil && rev > m {
+			m = rev
+		}
+	}
+	return m
 }
 
 // awaitClient waits for the next event (gate arrival or completion) of client cid.
